@@ -482,3 +482,38 @@ def run(F, rep):
     if n_n1 < 2:
         raise AnalysisBroken('C05.N1: only %d writes of mNlaSystemIndex found in analyser.cpp (2 confirmed)' % n_n1)
 
+    # ------------------------------------------------------------------ K1: one internal variable per equivalence class
+    rep.rule('C05.K1', 'AnalyserImpl::internalVariable(v) returns the tracked variable of v\'s equivalence class whenever there is one: in its search loop, areEquivalentVariables(v, tracked) being true is SUFFICIENT for a hit '
+                       '(decided by evaluating the loop\'s test with that atom true and every other atom false). A further conjunct ("not in the same component") makes a second internal variable for a class that already has one: '
+                       'the class is then computed once and needed twice, and a valid model is reported underconstrained depending on the order of the components')
+    from engines import value_of as _vo5k
+    ivf = F.fn1('Analyser::AnalyserImpl::internalVariable')
+    hits = [r for r in ivf.walk() if r.get('k') == 'Return' and ivf.enclosing_lambda(r) is None and any(a.get('k') in ('RangeFor', 'For', 'While') for a in ivf.ancestors(r))]
+    # the same search written with std::find_if: the predicate lambda's return expression is the test
+    lam_tests = [r['c'][0] for c in ivf.walk() if c.get('k') == 'Call' and (c.get('callee') or '') in ('std::find_if', 'std::any_of') for l_ in walk(c) if l_.get('k') == 'Lambda'
+                 for r in walk(l_) if r.get('k') == 'Return' and r.get('c')]
+    if not hits and not lam_tests:
+        raise AnalysisBroken('internalVariable: no return inside the search loop')
+
+    def _suff(e):
+        """value of e when every areEquivalentVariables(...) atom is true and every other atom is false"""
+        e = _vo5k(ivf, e)
+        k_ = e.get('k')
+        if k_ == 'Bin' and e.get('op') == '&&':
+            return _suff(e['c'][0]) and _suff(e['c'][1])
+        if k_ == 'Bin' and e.get('op') == '||':
+            return _suff(e['c'][0]) or _suff(e['c'][1])
+        if k_ == 'Un' and e.get('op') == '!':
+            return not _suff(e['c'][0])
+        if k_ == 'Bool':
+            return bool(e.get('v'))
+        return k_ == 'Call' and e.get('fn') == 'areEquivalentVariables'
+    for t_ in lam_tests:
+        okl = _suff(t_) and any(x.get('k') == 'Call' and x.get('fn') == 'areEquivalentVariables' for x in walk(t_))
+        rep.check(okl, 'C05.K1', 'internalVariable|predicate %s' % render(t_)[:60], ivf.where(t_), 'internalVariable() does not find the tracked variable for every variable that is equivalent to it: the predicate `%s` can fail although areEquivalentVariables holds' % render(t_)[:80], 'equivalence alone decides')
+    for r in hits:
+        conds_ = [(cnd, br) for cnd, br, st in enclosing_conditions(ivf, r) if st.get('k') == 'If']
+        okk = bool(conds_) and all((_suff(cnd) if br == 'then' else not _suff(cnd)) for cnd, br in conds_) and any(x.get('k') == 'Call' and x.get('fn') == 'areEquivalentVariables' for cnd, br in conds_ for x in walk(_vo5k(ivf, cnd)))
+        rep.check(okk, 'C05.K1', 'internalVariable|hit under %s' % ' & '.join(render(cnd)[:50] for cnd, br in conds_)[:90], ivf.where(r),
+                  'internalVariable() does not return the tracked variable for every variable that is equivalent to it: the test `%s` can fail although areEquivalentVariables holds' % ' & '.join(render(cnd)[:70] for cnd, br in conds_), 'equivalence alone decides')
+
